@@ -313,6 +313,9 @@ impl OsIpcOneShotServer {
             .unwrap()
             .clone();
         record.accept();
+        // The record holds a sender for this server's channel: release it before receiving,
+        // so that a client which connected and went away without sending is noticed.
+        drop(record);
         ONE_SHOT_SERVERS.lock().unwrap().remove(&self.name).unwrap();
         let (data, channels, shmems) = self.receiver.recv()?;
         Ok((self.receiver, data, channels, shmems))
